@@ -15,6 +15,31 @@ func c18One(c *Ctx, b []byte, modelOps bool) {
 	c18Run(c, b, modelOps, false)
 }
 
+// c18Lite: Compact and one Indent against encoding/json and (Compact) the model, for the large sweeps
+func c18Lite(c *Ctx, b []byte) {
+	in := fmt.Sprintf("%q", b)
+	var g, s bytes.Buffer
+	g.WriteString("XX")
+	s.WriteString("XX")
+	gerr := json.Compact(&g, b)
+	serr := stdjson.Compact(&s, b)
+	ok := (gerr == nil) == (serr == nil) && bytes.Equal(g.Bytes(), s.Bytes())
+	c.Oracle("compact/pre=XX", in, fmt.Sprintf("%q err=%v", g.Bytes(), gerr), fmt.Sprintf("%q err=%v", s.Bytes(), serr), ok, "")
+	res := "err"
+	if gerr == nil {
+		res = "ok " + hx(g.Bytes()[2:])
+	}
+	c.Op("compact "+hx(b), res, len(b) > 1, "compact-string")
+	g.Reset()
+	s.Reset()
+	g.WriteString("XX")
+	s.WriteString("XX")
+	gerr = json.Indent(&g, b, ">", "\t")
+	serr = stdjson.Indent(&s, b, ">", "\t")
+	ok = (gerr == nil) == (serr == nil) && bytes.Equal(g.Bytes(), s.Bytes())
+	c.Oracle("indent/\">\"/\"\\t\"/pre=XX", in, fmt.Sprintf("%q err=%v", g.Bytes(), gerr), fmt.Sprintf("%q err=%v", s.Bytes(), serr), ok, "")
+}
+
 func c18Run(c *Ctx, b []byte, modelOps bool, deep bool) {
 	in := fmt.Sprintf("%q", b)
 	if deep {
@@ -131,6 +156,13 @@ func runC18(c *Ctx) {
 	}
 	rec([]byte{})
 	c.Rep.Exhaustive = append(c.Rep.Exhaustive, fmt.Sprintf("all %d byte strings of length <= %d over the 26-symbol alphabet", n, maxLen))
+	// string literals: every body over the escape alphabet (a \u escape is longer than the sweep above)
+	bl := 6
+	if c.Thorough() {
+		bl = 7
+	}
+	nb := strBodies(bl, func(body []byte) { c18Lite(c, quoted(body)) })
+	c.Rep.Exhaustive = append(c.Rep.Exhaustive, fmt.Sprintf("all %d string literals whose body is a sequence of length <= %d over \\ u 0 a F g \" n", nb, bl))
 	ndocs := 150
 	if c.Thorough() {
 		ndocs = 2500
